@@ -1,4 +1,4 @@
-import J5V.Schema.ExportProofs
+import J5V.Schema.ExportSet
 import J5V.Generated.SchemaFacts
 /-!
 # C15 — schema sets survive export to the source-API form and re-import
@@ -126,6 +126,46 @@ theorem C15_list_rules_kept (pkg : String) (od : Bool) (types : List String) (lr
     fieldFromDesc pkg (toJ5Field (.enum ref rules lr ext)) = .ok (.enum ref.reg rules lr ext) :=
   ⟨rfl, rfl, rfl⟩
 
+/-! ### whole schema sets
+
+A schema set as Go holds it (`SSet`: packages by name, schemas by key). `SetWF` = map keys are
+unique and scalars carry importable formats; `Closed` = every reference held by a schema of the
+set names a schema of the set (true of every set the reader returns: referenced messages and
+enums are reflected with the referrer). -/
+
+/-- `export (import (export s)) = export s` for a whole set, **with every reference resolved**:
+`PackageSetFromSourceAPI` (all packages, then `assertRefsLink` on each) accepts the export of the
+set, and each schema of the result exports to exactly what it exported to before — including
+cross-package references, recursive types, and enums referenced only from fields. -/
+theorem C15_fixpoint_set (s : SSet) (hwf : SetWF s) (hc : Closed s) :
+    ∃ env', packageSetFromSourceAPI (toApi s) = .ok env' ∧
+      ∀ p k, exportLookup env' p k = (lookupSet s p k).map toJ5Root := by
+  obtain ⟨env', h1, h2, _⟩ := packageSet_roundtrip s hwf hc
+  exact ⟨env', h1, h2⟩
+
+/-- every reference of the re-imported set is resolved: every registered name (including the
+placeholders created for references) is linked to a schema -/
+theorem C15_refs_link (s : SSet) (hwf : SetWF s) (hc : Closed s) (env' : Env)
+    (h : packageSetFromSourceAPI (toApi s) = .ok env') :
+    ∀ e ∈ env'.entries, (env'.linkedAt e.pkg e.key).isSome = true := by
+  obtain ⟨env'', h1, _, h3⟩ := packageSet_roundtrip s hwf hc
+  rw [h] at h1
+  cases h1
+  exact h3
+
+/-- the walk of `assertRefsLink` itself cannot fail once every reference resolves (whatever the
+shape of the reference graph: cycles, self references, shared targets) -/
+theorem C15_assertRefsLink_ok (env : Env)
+    (hroots : ∀ p k r, env.linkedAt p k = some r → ∀ ref ∈ r.refs, Resolves env ref)
+    (hentries : ∀ e ∈ env.entries, (env.linkedAt e.pkg e.key).isSome = true) (p : String) :
+    assertRefsLink env p = .ok () := by
+  have := assertAll_ok env hroots hentries [p]
+  simp only [assertAll] at this
+  split at this <;> simp_all
+
+/-- what the driver exports from a parsed set is the export of that set -/
+theorem C15_exportEnv_is_toApi (env : Env) : exportEnv env = toApi (envSet env) := exportEnv_eq env
+
 /-! ## Non-vacuity -/
 
 /-- a schema with every feature the property lists: entity marker, any-membership, rules, list
@@ -140,6 +180,24 @@ def sampleObject : SRoot :=
         .any true ["vt.v1.Foo"] (some "5200")⟩,
       ⟨"grid", false, false, false, false, "", [4],
         .map (.array (.scalar .integer 2 kindInt64 "" "fa01020802") (some "0801") none) none none⟩ ]
+
+/-- a closed two-package set: `Foo` refers to the enum `Kind` of its own package, to itself
+(through `parent`) and to `other.v1.Bar`, which refers back to `Foo` -/
+def sampleSet : SSet :=
+  [ ("vt.v1",
+      [ ("Foo", .object "vt.v1" "Foo" "" none []
+          [ ⟨"kind", false, false, false, false, "", [1], .enum ⟨"vt.v1", "Kind", true⟩ none none none⟩,
+            ⟨"parent", false, false, false, false, "", [2], .object ⟨"vt.v1", "Foo", true⟩ false none none⟩,
+            ⟨"bars", false, false, false, false, "", [3],
+              .array (.object ⟨"other.v1", "Bar", true⟩ false none none) none none⟩ ]),
+        ("Kind", .enum "vt.v1" "Kind" "" "KIND_" [⟨"UNSPECIFIED", 0, "", []⟩, ⟨"A", 1, "", [("colour", "red")]⟩]
+          [⟨"colour", "Colour", ""⟩]) ]),
+    ("other.v1",
+      [ ("Bar", .oneof "other.v1" "Bar" "" [⟨"foo", false, false, false, false, "", [1],
+          .object ⟨"vt.v1", "Foo", true⟩ true none none⟩]) ]) ]
+
+example : SetWF sampleSet := ⟨by decide, by decide, by decide⟩
+example : Closed sampleSet := by unfold Closed; decide
 
 example : wfRoot sampleObject = true := by decide
 example : (rootFromDesc "other.v1" (toJ5Root sampleObject)).isOk = true := by decide
